@@ -624,8 +624,11 @@ func (pr *ProtoArray) OnPrune(ctx context.Context, anchorRoot Root, anchorSlot S
 	pr.blockSlots[anchorRoot] = anchorSlot
 	for _, p := range pruned[:prunedUpTo] {
 		delete(pr.indices, p.node.Ref)
-		// Remove the block-slots ref
-		delete(pr.blockSlots, p.node.Ref.Root)
+		// Remove the block-slots ref, unless it is the anchor's own root
+		// (pre-anchor slot nodes of the anchor block share it, and it was just re-pointed at the anchor slot).
+		if p.node.Ref.Root != anchorRoot {
+			delete(pr.blockSlots, p.node.Ref.Root)
+		}
 		// TODO: is this slicing bad for GC?
 		pr.nodes = pr.nodes[1:]
 		// update offset
